@@ -39,8 +39,19 @@ def neighbor_scores(I, ds, util, K=1, dist=None, y_train=None, y_test=None, prov
         provenance = prov_arg(I, ds)[0]
     n_rows, m = D.shape
     X = np.arange(n_rows, dtype=float).reshape(-1, 1) if X is None else X
-    Xv = np.arange(m, dtype=float).reshape(-1, 1) if Xv is None else Xv
-    imp = I["imp"].ShapleyImportance(method="neighbor", utility=util, nn_k=K, nn_distance=lambda A, B, D=D: np.array(D, dtype=float))
+    custom = X is not None or Xv is not None
+    if Xv is None:
+        Xv = np.arange(m, dtype=float).reshape(-1, 1)
+        for (j1, j2) in ds.get("val_twins", []) if dist is None and y_test is None else []:
+            Xv[j2, 0] = Xv[j1, 0]          # validation points with IDENTICAL features (their distance columns are identical too)
+
+    def dfun(A, B, D=D):
+        # the feature of a row is its index: the callable honours the rows it is GIVEN (batches, any sub-selection the implementation makes)
+        if custom:
+            return np.array(D, dtype=float)
+        D_ = np.asarray(D, dtype=float)
+        return np.array(D_[np.ix_([int(v) for v in np.asarray(A)[:, 0]], [int(v) for v in np.asarray(B)[:, 0]])], dtype=float)
+    imp = I["imp"].ShapleyImportance(method="neighbor", utility=util, nn_k=K, nn_distance=dfun)
     return list(np.asarray(imp.fit(X, np.array(ytr), provenance=provenance).score(Xv, np.array(yte)), dtype=float))
 
 
